@@ -7,6 +7,12 @@ props = [json.loads(l) for l in open(os.path.join(ROOT, 'properties.jsonl'))]
 
 # id -> (technique, level text, level note, design ref)
 CHECKS = {
+ 'C03': ('runtime fault injection: reflection-enumerated single-field tampers and witness-level tampers of accepted blocks (not re-signed, envelope re-sealed) judged by the real ValidateBlock against a rule table',
+         'Every block accepted on generated histories is tampered one point at a time: a sample of all exported leaf fields of each signed v1/v2 transaction, dropped/duplicated/surplus/swapped/foreign signatures and preimages, substituted unlock conditions and policies, revisions and renewals signed by other or by the proposed keys, attestations, Foundation changes without Foundation authorization; the rule table demands rejection except for documented exceptions which are only recorded; positive controls: untampered block accepted, tamper followed by correct re-signing accepted.',
+         'Trusted: the rule table (which field classes are bound by which signature / by the accumulator) and the re-seal code.', '§5 C03'),
+ 'C19': ('runtime monitors: size/limit oracle over maximal valid RPC objects, counting-reader read-bound monitor, exactly-once in-order trace checker over in-memory (fragmenting, tampering) and TCP transports under -race',
+         'All RHP4/gateway/RHP2/RHP3 message types at their maximal protocol-valid sizes and random sizes must round-trip within the receiver limit; hostile/endless streams must not make a reader pull more than its limit; every RPCError must be delivered as that error; messages over gateway, RHP3 and RHP2 transports (1-byte fragmentation, stalls, TCP loopback, concurrent streams, race detector) must arrive exactly once, equal and in order; single-byte flips and truncations of frames must be detected and poison the session; handshake mismatches must fail on both sides.',
+         'Trusted: memconn (in-memory conn), the harness\'s own parsers for tampered streams. Block/transaction RPC limits are judged against consensus-weight-maximal blocks.', '§5 C19'),
  'C07': ('runtime monitor: contract lifecycle state machine over the diff stream + revision-law fault injection + storage-proof differential against a naive Merkle prover in every era through real blocks',
          'Lifecycle monitor on generated histories (created -> revised* -> resolved once; payout outputs compared with the latest accepted revision per resolution kind, maturity, renewal split, revision laws) plus illegal revisions injected into accepted blocks (must be rejected); storage-proof differential: for files of every size class in the three v1 eras and under v2 the naive model\'s honest proof of the independently recomputed challenge must be accepted in a real block and ~12 corruptions per contract must be rejected; rhp/v2 BuildProof+ConvertProofOrdering cross-checked as second prover.',
          'Trusted: naive RFC-6962 Merkle model over zero-padded 64-byte segments; math/big challenge derivation; ID derivations via the library (C12\'s subject). Empty files have no leaf: no completeness/soundness demanded.', '§5 C07'),
